@@ -8,6 +8,7 @@ cd /repo || exit 2
 if [ -n "$(git status --porcelain)" ]; then echo "refusing: /repo has uncommitted changes"; exit 2; fi
 trap 'git -C /repo checkout -- .' EXIT
 git apply "$PATCH" || exit 2
+export VERIF_OUT_DIR=/dev/shm/verif_mut_out
 OUT=$(/verif/run.sh "$ID" quick 2>&1); echo "check exit=$?"
 F=$(echo "$OUT" | grep -m1 "^VIOLATION" | sed 's/.*replay=//')
 [ -z "$F" ] && { echo "no violation reported"; exit 1; }
